@@ -1,9 +1,9 @@
 SPECIFICATION Spec
 CONSTANTS
- Sizes = {12}
- Caps = {4}
+ Sizes = {11}
+ Caps = {3}
  Codes <- OneCode
- MaxOps = 8
+ MaxOps = 100
 INVARIANT TextOrNothing
 INVARIANT NoOverlap
 INVARIANT InBounds
@@ -14,4 +14,3 @@ INVARIANT QueueBounded
 PROPERTY Refines
 VIEW View
 CHECK_DEADLOCK FALSE
-CONSTRAINT DepthBound
